@@ -60,6 +60,38 @@ pub fn render_defs(ts: &TypeSpace) -> (String, Vec<Value>, Vec<String>) {
     }
 }
 
+/// A cycle that runs only through unnamed types (Box, Option, Vec, ...): naming or rendering such a
+/// type recurses without bound (a stack overflow cannot be caught), so it is detected on the
+/// internal snapshot first.
+fn unnamed_cycle(ts: &TypeSpace) -> bool {
+    let snap = ts.verif_snapshot();
+    let unnamed = ["box", "option", "vec", "map", "set", "tuple", "array", "reference"];
+    let mut edges: std::collections::BTreeMap<u64, Vec<u64>> = Default::default();
+    for e in snap["entries"].as_array().unwrap() {
+        if unnamed.contains(&e["kind"].as_str().unwrap_or("")) {
+            let id = e["id"].as_u64().unwrap();
+            let to = e["edges"].as_array().unwrap().iter().filter_map(|x| x["to"].as_u64()).collect();
+            edges.insert(id, to);
+        }
+    }
+    // iterative reachability: n is on a cycle if it reaches itself through unnamed nodes
+    for &start in edges.keys() {
+        let mut seen = std::collections::BTreeSet::new();
+        let mut stack = edges[&start].clone();
+        while let Some(n) = stack.pop() {
+            if n == start {
+                return true;
+            }
+            if seen.insert(n) {
+                if let Some(next) = edges.get(&n) {
+                    stack.extend(next.iter().copied());
+                }
+            }
+        }
+    }
+    false
+}
+
 pub fn run(cases: &str, events: &str) {
     let cases = read_cases(cases);
     let mut out = Out::new(events);
@@ -74,6 +106,18 @@ pub fn run(cases: &str, events: &str) {
             let (res, raw, id) = doc::do_call(&mut ts, call);
             if let Some(id) = id {
                 roots.push(id);
+            }
+            if unnamed_cycle(&ts) {
+                // nothing promised so far can still be described: report and stop this history
+                out.ev(json!({
+                    "ev": "call", "case": i + 1, "seq": k + 1,
+                    "tpl": case["hist"][k], "key": doc::fnv(&call_key(call)),
+                    "res": res, "id": raw, "known": [], "defkeys": def_keys(call),
+                    "rres": "unbounded", "defs": [], "dups": [],
+                }));
+                last_defs = vec![];
+                last_rres = "unbounded".to_string();
+                break;
             }
             let known = doc::closure(&ts, &roots)
                 .into_iter()
